@@ -4,9 +4,9 @@ package main
 // accounts, blocks with explicit header times and real signed transactions through DeliverTx.
 
 import (
-	txtypes "github.com/cosmos/cosmos-sdk/types/tx"
 	"encoding/json"
 	"fmt"
+	txtypes "github.com/cosmos/cosmos-sdk/types/tx"
 	"os"
 	"time"
 
@@ -18,8 +18,9 @@ import (
 	"github.com/cosmos/cosmos-sdk/baseapp"
 	"github.com/cosmos/cosmos-sdk/client"
 	"github.com/cosmos/cosmos-sdk/client/flags"
-	cryptotypes "github.com/cosmos/cosmos-sdk/crypto/types"
 	"github.com/cosmos/cosmos-sdk/crypto/keys/secp256k1"
+	cryptotypes "github.com/cosmos/cosmos-sdk/crypto/types"
+	"github.com/cosmos/cosmos-sdk/server"
 	"github.com/cosmos/cosmos-sdk/testutil/mock"
 	simtestutil "github.com/cosmos/cosmos-sdk/testutil/sims"
 	sdk "github.com/cosmos/cosmos-sdk/types"
@@ -73,10 +74,18 @@ func setConfigOnce() {
 	}
 }
 
+// node-local configuration (app.toml `minimum-gas-prices`) of the applications created next: handed over the way the
+// node's start command does it, in the application options and as a BaseApp option
+var nodeLocalMinGasPrices string
+
 func newAppOn(db dbm.DB, home string) *app.App {
 	setConfigOnce()
 	opts := simtestutil.AppOptionsMap{flags.FlagHome: home}
 	bo := []func(*baseapp.BaseApp){baseapp.SetChainID(chainID)}
+	if nodeLocalMinGasPrices != "" {
+		opts[server.FlagMinGasPrices] = nodeLocalMinGasPrices
+		bo = append(bo, baseapp.SetMinGasPrices(nodeLocalMinGasPrices))
+	}
 	if os.Getenv("VERIF_DISABLE_FASTNODE") != "" {
 		// diagnostic only (known finding F16): with IAVL's fast-node index off, listing queries at a height no
 		// longer see the next height
@@ -224,8 +233,8 @@ type TxSpec struct {
 	Fee      int64
 	Gas      uint64
 	Mode     signing.SignMode
-	FeePayer string // explicit AuthInfo.Fee.Payer ("" = none)
-	FeeCoins sdk.Coins // when set, the whole fee (any denominations); Fee is then ignored
+	FeePayer string       // explicit AuthInfo.Fee.Payer ("" = none)
+	FeeCoins sdk.Coins    // when set, the whole fee (any denominations); Fee is then ignored
 	Tip      *txtypes.Tip // AuthInfo.Tip (accepted and ignored by SDK 0.47)
 }
 
